@@ -105,6 +105,13 @@ impl Pair {
     }
 
     pub fn apply_opt(&mut self, op: &Op, edges: &mut BTreeMap<String, u64>, with_compact: bool) -> Vec<(String, String)> {
+        match catch(|| self.apply_inner(op, edges, with_compact)) {
+            Ok(v) => v,
+            Err(p) => vec![(format!("panic|{}", p.site_key()), format!("{:?} or a following accessor panicked: {} at {}:{}", op, p.message, p.file, p.line))],
+        }
+    }
+
+    fn apply_inner(&mut self, op: &Op, edges: &mut BTreeMap<String, u64>, with_compact: bool) -> Vec<(String, String)> {
         let mut out = vec![];
         let k = 1usize << self.cfg.lg_k;
         let theta_before = self.s.theta64();
